@@ -5,9 +5,14 @@
 #   address and are only used to inject and sniff frames (IPv6 disabled there, so
 #   that they emit nothing themselves). Static neighbour entries stand for the
 #   clients/relays the wire engine impersonates. lo (multicast switched on) and tn0 are
-#   multicast-but-not-broadcast interfaces; vd0 <-> vd1 stays down.
+#   multicast-but-not-broadcast interfaces; vd0 <-> vd1 stays down. VE0 <-> VF0 (created first, so with
+#   lower interface indexes; down, no addresses) differ from ve0/vf0 in letter case only - interface
+#   names are case-sensitive, a listener bound to ve0 has nothing to do with VE0.
 set -e
 ip link set lo up
+ip link add VE0 type veth peer name VF0 2>/dev/null || true
+sysctl -qw net.ipv6.conf.VE0.disable_ipv6=1 2>/dev/null || true
+sysctl -qw net.ipv6.conf.VF0.disable_ipv6=1 2>/dev/null || true
 ip link add ve0 type veth peer name ve1
 ip link add vf0 type veth peer name vf1
 for i in ve1 vf1; do
